@@ -238,6 +238,15 @@ def rule_report(rep):
             pair_ok = {nbit(exp), nbit(act)} == {nbit(cl), nbit(cr)}
             measured = role[VB_TABLE[v][0]]
             act_ok = mentions_path(act, measured) and nbit(exp) == expected_of[v]
+            # what is measured, exactly: the number of channels is `<param>.len()`; a channel's length is `<param>[chan].as_ref()/as_mut().len()` with
+            # chan the index of the loop the test sits in (`wave_in.as_ref().len()` on the outer slice - the element variable mistaken for the
+            # parameter it shadows - is the channel count again)
+            if v.startswith("WrongNumber"):
+                act_ok = act_ok and nbit(act) == "%s.len()" % measured
+            else:
+                fors_ = [cn for cn in ctrl if cn.get("k") == "for"]
+                ch_ = ir.pat_names(fors_[-1]["pat"])[0] if fors_ and ir.pat_names(fors_[-1]["pat"]) else "?"
+                act_ok = act_ok and nbit(act) in ("%s[%s].as_ref().len()" % (measured, ch_), "%s[%s].as_mut().len()" % (measured, ch_), "%s[%s].len()" % (measured, ch_))
             # the comparison operator: reject iff actual <op> expected
             if nbit(cl) == nbit(act):
                 op = c["op"]
